@@ -22,9 +22,9 @@ enum { OP_K, OP_R, OP_A, OP_W, OP_C, OP_F };
 struct op { int kind; int s, t; int arg; const char* name; };
 static struct op OPS[64];
 static int NOPS;
-static int NFILES = 4, NKIN = 3;
-static char FILES[4][400];
-static struct kx_set FILESET[4];        /* names and ungapped residues of each input file, by the independent parsers */
+static int NFILES = 5, NKIN = 3;
+static char FILES[5][400];
+static struct kx_set FILESET[5];        /* names and ungapped residues of each input file, by the independent parsers */
 
 static void add_op(int kind, int s, int t, int arg, const char* fmt, ...)
 {
@@ -158,6 +158,11 @@ void vh_init(int tier)
         {
                 const char* afa = ">q1\nAC-GTAC\n>q2\nACGGT-C\n";
                 vh_write_file(FILES[2], afa, strlen(afa));
+        }
+        {
+                /* more empty records than sequences: the removal of empty records and the per-node bookkeeping must stay in step */
+                const char* emp = ">e1\nACGTTGCA\n>empty1\n>empty2\n\n>e2\nACGTGCA\n>empty3\n";
+                vh_write_file(FILES[4], emp, strlen(emp));
         }
         sinput_build(sinput_get(11), &s);
         txt = kx_fasta_text(&s, 0);
